@@ -24,6 +24,9 @@ func runC13(p *core.Prog, r *core.Report) {
 	c12Verifiers(c, 10, "bob-wc", "range-alice")
 	c13WithCheck(c)
 	c.r.Floor("R13.4", 30)
+	aliasedInPlaceUpdates(c, "RA.1", "crypto/mta", "crypto/paillier", "common")
+	// the MtA must also work at the edge b = 0: HomoMult(0, cA) = 1 is then handed to HomoAdd
+	c14EdgeValues(c, "R14.4")
 }
 
 // callArgTerms returns terms of the explicit args (receiver first for methods).
